@@ -68,6 +68,10 @@ def prepare_scratch():
         subprocess.run(['rsync', '-a', os.path.join(over, 'src') + '/', os.path.join(WORK, 'src') + '/'], check=True)
     os.makedirs(os.path.join(WORK, '.git'), exist_ok=True)  # repository-root discovery needs a directory
     for fn in sorted(os.listdir(CEX)):
+        if fn.startswith('tests__') and fn.endswith('.rs'):
+            # a process-level harness: a new integration-test file
+            shutil.copy(os.path.join(CEX, fn), os.path.join(WORK, fn.replace('__', '/')))
+            continue
         if not (fn.startswith('src__') and fn.endswith('.rs')):
             continue
         target = os.path.join(WORK, fn.replace('__', '/'))
@@ -99,13 +103,20 @@ def run_units(units, timeout=1500):
             env['CARGO_TARGET_DIR'] = TARGET
             env['CARGO_NET_OFFLINE'] = 'true'
             # harnesses of the library target and of the binary target (src/main.rs) need separate runs
-            lib_tests = sorted(set(h['test'] for h in wanted.values() if not h.get('file', '').endswith('main.rs')))
-            bin_tests = sorted(set(h['test'] for h in wanted.values() if h.get('file', '').endswith('main.rs')))
+            def kind_of(h):
+                ca = (h.get('cargo_args') or '').strip()
+                if ca.startswith('--test'):
+                    return ('--test', ca.split()[1])
+                if h.get('file', '').endswith('main.rs'):
+                    return ('--bin', 'blockwatch')
+                return ('--lib', None)
+            by_kind = {}
+            for h in wanted.values():
+                by_kind.setdefault(kind_of(h), set()).add(h['test'])
             stdout, stderr, rc, cmds = '', '', 0, []
-            for kind, tests in (('--lib', lib_tests), ('--bin', bin_tests)):
-                if not tests:
-                    continue
-                cmd = ['cargo', 'test', '--offline'] + ([kind] if kind == '--lib' else ['--bin', 'blockwatch']) + ['--'] + tests + ['--nocapture', '--test-threads', '8']
+            for (kind, name), tests in sorted(by_kind.items(), key=lambda kv: str(kv[0])):
+                tests = sorted(tests)
+                cmd = ['cargo', 'test', '--offline', kind] + ([name] if name else []) + ['--'] + tests + ['--nocapture', '--test-threads', '8']
                 cmds.append(' '.join(cmd))
                 try:
                     p = subprocess.run(cmd, cwd=WORK, env=env, capture_output=True, text=True, timeout=timeout)
